@@ -629,18 +629,18 @@ func c19Forced(c *Ctx) {
 			c.Bad(rule, "HandleDownload builder", str.Pos(), "the rendered builder is %s", o.String())
 		}
 	}
+	// stores into the rendered builder's Settings, by the handler or a helper it hands the builder to
+	all := c.nestedFieldStores(fn, "Settings", func(v ssa.Value) bool { return strip(v) == strip(d) || v == d })
 	stores := map[string][]*ssa.Store{}
-	eachInstr(fn, func(in ssa.Instruction) {
-		s, ok := in.(*ssa.Store)
-		if !ok {
-			return
+	sites := map[*ssa.Store]ssa.Instruction{}
+	vals := map[*ssa.Store]ssa.Value{}
+	for name, fss := range all {
+		for _, fs := range fss {
+			stores[name] = append(stores[name], fs.store)
+			sites[fs.store] = fs.at
+			vals[fs.store] = fs.val
 		}
-		if b, f, ok := fieldOfAddr(s.Addr); ok {
-			if bb, pf, ok2 := fieldOfAddr(b); ok2 && pf.Name() == "Settings" && bb == d {
-				stores[f.Name()] = append(stores[f.Name()], s)
-			}
-		}
-	})
+	}
 	srcCookie := c.ConstInt("cmd/rdpgw/rdp", "SourceCookie")
 	wantConst := map[string]int64{"GatewayCredentialsSource": srcCookie, "GatewayCredentialMethod": 1, "GatewayUsageMethod": 1}
 	for _, name := range []string{"FullAddress", "GatewayHostname", "GatewayCredentialsSource", "GatewayAccessToken", "GatewayCredentialMethod", "GatewayUsageMethod"} {
@@ -650,18 +650,18 @@ func c19Forced(c *Ctx) {
 			c.Bad(rule, key, fn.Pos(), "the gateway-controlled setting %s is not forced into the file", name)
 			continue
 		}
-		all := !reachWithoutMarker(fn, str, func(in ssa.Instruction) bool {
+		allp := !reachWithoutMarker(fn, str, func(in ssa.Instruction) bool {
 			for _, s := range ss {
-				if in == ssa.Instruction(s) {
+				if in == sites[s] {
 					return true
 				}
 			}
 			return false
 		})
-		good := all
+		good := allp
 		if k, ok := wantConst[name]; ok {
 			for _, s := range ss {
-				if v, isC := constInt(s.Val); !isC || v != k {
+				if v, isC := constInt(vals[s]); !isC || v != k {
 					good = false
 				}
 			}
@@ -674,13 +674,13 @@ func c19Forced(c *Ctx) {
 	if len(ss) == 0 {
 		c.Bad(rule, "HandleDownload Username", fn.Pos(), "the user name is never written")
 	} else {
-		leak := reachWithoutMarkerAvoiding(fn, str, func(in ssa.Instruction) bool { return in == ssa.Instruction(ss[0]) }, GTrue(isNoUser))
+		leak := reachWithoutMarkerAvoiding(fn, str, func(in ssa.Instruction) bool { return in == sites[ss[0]] }, GTrue(isNoUser))
 		c.Check(!leak, rule, "HandleDownload Username", ss[0].Pos(), "written unless NoUsername", "the template's user name survives although NoUsername is off")
 	}
 	// ... and, with NoUsername set, neither the user name nor the domain is forced (the template's stay)
 	for _, name := range []string{"Username", "Domain"} {
 		for i, st := range stores[name] {
-			ok, why := mustPass(fn, st, GFalse(isNoUser))
+			ok, why := mustPass(fn, sites[st], GFalse(isNoUser))
 			c.Check(ok, rule, fmt.Sprintf("HandleDownload %s suppressed#%d", name, i), st.Pos(), name+" is written only when NoUsername is off", "the "+name+" setting is forced "+why+" of !NoUsername: with user name and domain suppressed the file still carries (or overwrites the template's) "+name)
 		}
 	}
